@@ -37,6 +37,7 @@ func checkC08(p *Prog, c *Check) {
 	c08Outbox(p, c)
 	c08Commitment(p, c)
 	c08Restart(p, c)
+	c08Snapshot(p, c)
 }
 
 func c08TX(p *Prog, c *Check) {
@@ -425,7 +426,26 @@ func c08Dirty(p *Prog, c *Check) {
 			}
 		}
 		cut := fi.edgesWhere(func(a Atom) bool {
-			return ParseAtomPat("InsertPureDKG(...) == nil").Match(a, Binds{}) || ParseAtomPat("cur(_.dirty) == false").Match(a, Binds{})
+			if ParseAtomPat("InsertPureDKG(...) == nil").Match(a, Binds{}) || ParseAtomPat("cur(_.dirty) == false").Match(a, Binds{}) {
+				return true
+			}
+			// the success of a helper whose every successful return lies behind InsertPureDKG == nil
+			if a.Op == "==" && a.R.K == TNil {
+				ct := a.L
+				if ct.K == TRes && len(ct.Sub) == 1 {
+					ct = ct.Sub[0]
+				}
+				if ct.K == TCall && ct.Callee != nil && inModule(ct.Callee) && ct.Callee.Blocks != nil {
+					g := ct.Callee
+					nres := g.Signature.Results().Len()
+					for _, sa := range p.Summary(g, []ResultCond{{nres - 1, "nil"}}) {
+						if ParseAtomPat("InsertPureDKG(...) == nil").Match(sa, Binds{}) {
+							return true
+						}
+					}
+				}
+			}
+			return false
 		})
 		okSave = !reachAvoiding(l.Body, l.Header, cut, avoid)
 	}
@@ -611,14 +631,17 @@ func c08Restart(p *Prog, c *Check) {
 		}
 		c.Analysed(shortFn(fn))
 		fi := p.Info(fn)
-		encs := callsTo(fn, "(*encoding/gob.Encoder).Encode")
-		ok := len(encs) == 1
-		why := fmt.Sprintf("expected one gob Encode call, found %d", len(encs))
-		if ok {
-			arg := unbox(encs[0].Common().Args[1])
-			if arg != ssa.Value(fn.Params[0]) {
-				ok, why = false, "the encoded value is not the function's argument itself: "+fi.T(arg).s
+		// exactly one Encode call encodes the state itself; further values (auxiliary data next to the
+		// snapshot) may follow
+		var encs []ssa.CallInstruction
+		for _, e := range callsTo(fn, "(*encoding/gob.Encoder).Encode") {
+			if unbox(e.Common().Args[1]) == ssa.Value(fn.Params[0]) {
+				encs = append(encs, e)
 			}
+		}
+		ok := len(encs) == 1
+		why := fmt.Sprintf("expected one gob Encode call of the function's argument itself, found %d", len(encs))
+		if ok {
 			// the argument is not modified
 			for _, b := range fn.Blocks {
 				for _, in := range b.Instrs {
@@ -643,18 +666,23 @@ func c08Restart(p *Prog, c *Check) {
 	if fn, err := p.Func("shdb.DecodePureDKG"); c.Must(err) {
 		fi := p.Info(fn)
 		c.Analysed(shortFn(fn))
+		// every successful return hands back the object one Decode call filled, after that call's success
 		decs := callsTo(fn, "(*encoding/gob.Decoder).Decode")
-		ok := len(decs) == 1
-		why := "expected one gob Decode call"
-		if ok {
-			target := fi.T(unbox(decs[0].Common().Args[1]))
-			for _, r := range returnsOf(fn) {
-				if fi.errIsNil(r.Results[1], r, 0) == no {
-					continue
+		ok := len(decs) >= 1
+		why := "no gob Decode call"
+		for _, r := range returnsOf(fn) {
+			if !ok || fi.errIsNil(r.Results[1], r, 0) == no {
+				continue
+			}
+			found := false
+			for _, d := range decs {
+				target := fi.T(unbox(d.Common().Args[1]))
+				if fi.T(r.Results[0]).s == target.s && fi.mustPassSuccess(d.(*ssa.Call), r.Block()) {
+					found = true
 				}
-				if fi.T(r.Results[0]).s != target.s || !fi.mustPassSuccess(decs[0].(*ssa.Call), r.Block()) {
-					ok, why = false, "the returned state is not the object the bytes were decoded into"
-				}
+			}
+			if !found {
+				ok, why = false, "the returned state is not the object the bytes were decoded into"
 			}
 		}
 		c.Result(ok, rule, "DecodePureDKG:returns-decoded", p.Rel(fn.Pos()), shortFn(fn), "gob decoding of the DKG state", why, "returns the Decode target after success")
@@ -663,13 +691,51 @@ func c08Restart(p *Prog, c *Check) {
 	if sv, err := p.Func("keyper/smobserver.ShuttermintState.Save"); c.Must(err) {
 		fi := p.Info(sv)
 		n := 0
+		// the insert: in Save itself or in a helper of the package Save calls inside the loop
+		type insSite struct {
+			ci   ssa.CallInstruction // the InsertPureDKG call
+			at   ssa.Instruction     // the instruction in Save (the call itself or the helper call)
+			flds map[string]*Term    // row fields in Save's terms
+		}
+		var inss []insSite
 		for _, ci := range callsTo(sv, "InsertPureDKG") {
+			inss = append(inss, insSite{ci, ci, fi.structLitFields(ci.Common().Args[len(ci.Common().Args)-1])})
+		}
+		rootV := view{fi, func(t *Term) *Term { return t }}
+		for _, b := range sv.Blocks {
+			for _, in := range b.Instrs {
+				hc, isCall := in.(*ssa.Call)
+				if !isCall {
+					continue
+				}
+				g := hc.Common().StaticCallee()
+				if g == nil || !inModule(g) || g.Blocks == nil || fnPkgPath(g) != fnPkgPath(sv) || isGeneratedFile(p.fileOf(g)) {
+					continue
+				}
+				g = origin(g)
+				hv := calleeView(p, rootV, hc)
+				for _, ci := range callsTo(g, "InsertPureDKG") {
+					raw := hv.fi.structLitFields(ci.Common().Args[len(ci.Common().Args)-1])
+					var up map[string]*Term
+					if raw != nil {
+						up = map[string]*Term{}
+						for k, t := range raw {
+							up[k] = hv.up(t)
+						}
+					}
+					c.Analysed(shortFn(g))
+					inss = append(inss, insSite{ci, hc, up})
+				}
+			}
+		}
+		for _, is := range inss {
+			ci := is.ci
 			n++
-			flds := fi.structLitFields(ci.Common().Args[len(ci.Common().Args)-1])
+			flds := is.flds
 			ok := false
 			why := "the row written is not {Eon: the map key, Puredkg: EncodePureDKG(the entry's pure)}"
 			for _, l := range loopsOf(p, sv) {
-				if !l.IsMap || !l.Blocks[ci.Block()] {
+				if !l.IsMap || !l.Blocks[is.at.Block()] {
 					continue
 				}
 				b := Binds{}
@@ -709,8 +775,50 @@ func c08Restart(p *Prog, c *Check) {
 		}
 		return nil, nil
 	}
-	lf, lsite := findLit(live, lfi)
-	df, dsite := findLit(load, dfi)
+	// the literal may be built by a helper of the package the function calls: its fields are then
+	// translated into the caller's terms (the keyper list is recognised in the helper and translated)
+	var dview *view
+	findLitVia := func(fn *ssa.Function, fi *FnInfo) (map[string]*Term, ssa.Instruction, *view) {
+		if f, site := findLit(fn, fi); f != nil {
+			return f, site, nil
+		}
+		root := view{fi, func(t *Term) *Term { return t }}
+		for _, b := range fn.Blocks {
+			for _, in := range b.Instrs {
+				hc, isCall := in.(*ssa.Call)
+				if !isCall {
+					continue
+				}
+				g := hc.Common().StaticCallee()
+				if g == nil || !inModule(g) || g.Blocks == nil || fnPkgPath(g) != fnPkgPath(fn) || isGeneratedFile(p.fileOf(g)) {
+					continue
+				}
+				g = origin(g)
+				gfi := p.Info(g)
+				if f, _ := findLit(g, gfi); f != nil {
+					hv := calleeView(p, root, hc)
+					c.Analysed(shortFn(g))
+					return f, hc, &hv
+				}
+			}
+		}
+		return nil, nil, nil
+	}
+	lf, lsite, lview := findLitVia(live, lfi)
+	df, dsite, dv := findLitVia(load, dfi)
+	dview = dv
+	upL := func(t *Term) *Term {
+		if t == nil || lview == nil {
+			return t
+		}
+		return lview.up(t)
+	}
+	upD := func(t *Term) *Term {
+		if t == nil || dview == nil {
+			return t
+		}
+		return dview.up(t)
+	}
 	if lf == nil || df == nil {
 		c.Undecided("rule %s: the ActiveDKG literal of handleEonStarted or loadDKG was not found", rule)
 		return
@@ -727,7 +835,7 @@ func c08Restart(p *Prog, c *Check) {
 	// startHeight
 	col := ""
 	for name, t := range insFlds {
-		if lf["startHeight"] != nil && stripConv(t).s == stripConv(lf["startHeight"]).s {
+		if lf["startHeight"] != nil && stripConv(t).s == stripConv(upL(lf["startHeight"])).s {
 			col = name
 		}
 	}
@@ -735,12 +843,12 @@ func c08Restart(p *Prog, c *Check) {
 	whyH := "the live path does not store the start height in the eon row"
 	if col != "" {
 		whyH = "the restarted keyper takes the DKG's start height from a different column than the one the live path stored it in (" + col + "): " + termStr(df["startHeight"])
-		okH = df["startHeight"] != nil && ParsePat("GetEon(_, _, $row.Eon)#0."+col).Match(df["startHeight"], Binds{})
+		okH = df["startHeight"] != nil && ParsePat("GetEon(_, _, $row.Eon)#0."+col).Match(upD(df["startHeight"]), Binds{})
 	}
 	c.Result(okH, rule, "loadDKG:startHeight", p.siteOf(dsite), shortFn(load), "ActiveDKG.startHeight after restart", whyH, "GetEon(row.Eon)."+col+" (stored from "+termStr(lf["startHeight"])+")")
 	_ = lsite
 	// pure
-	okP := df["pure"] != nil && ParsePat("DecodePureDKG($row.Puredkg)#0").Match(df["pure"], Binds{})
+	okP := df["pure"] != nil && ParsePat("DecodePureDKG($row.Puredkg)#0").Match(upD(df["pure"]), Binds{})
 	c.Result(okP, rule, "loadDKG:pure", p.siteOf(dsite), shortFn(load), "ActiveDKG.pure after restart", "the restarted state is not the decoded stored state: "+termStr(df["pure"]), "DecodePureDKG(row.Puredkg)")
 	// keypers: both from the batch config of the eon's config index
 	cfgCol := ""
@@ -758,7 +866,14 @@ func c08Restart(p *Prog, c *Check) {
 		}
 		return nil
 	}
-	le, de := keypersFrom(lfi, live, lf["keypers"]), keypersFrom(dfi, load, df["keypers"])
+	lkfi, dkfi := lfi, dfi
+	if lview != nil {
+		lkfi = lview.fi
+	}
+	if dview != nil {
+		dkfi = dview.fi
+	}
+	le, de := upL(keypersFrom(lkfi, live, lf["keypers"])), upD(keypersFrom(dkfi, load, df["keypers"]))
 	okK := le != nil && de != nil && cfgCol != "" &&
 		ParsePat("DecodeAddress(GetBatchConfig(_, _, $e.KeyperConfigIndex)#0.Keypers[_])#0").Match(le, Binds{}) &&
 		ParsePat("DecodeAddress(GetBatchConfig(_, _, GetEon(_, _, $row.Eon)#0."+cfgCol+")#0.Keypers[_])#0").Match(de, Binds{})
